@@ -19,6 +19,7 @@
 import warnings
 
 import numpy as np
+import xarray as xr
 
 from holopy.core.metadata import dict_to_array, make_subset_data
 from holopy.core.utils import ensure_array, ensure_listlike, ensure_scalar
@@ -385,6 +386,14 @@ class Model(HoloPyObject):
         Internal function taking pars as a list only
         """
         noise_sd = dict_to_array(data, self._find_noise(pars, data))
+        if (not isinstance(noise_sd, xr.DataArray) and np.ndim(noise_sd) == 1
+                and 'illumination' in data.dims
+                and len(noise_sd) == len(data['illumination']) > 1):
+            # one noise level per channel, listed in the order of the data's
+            # channels (a bare sequence would be broadcast along the last axis)
+            noise_sd = xr.DataArray(
+                np.asarray(noise_sd), dims=['illumination'],
+                coords={'illumination': data['illumination'].values})
         N = data.size
         log_likelihood = ensure_scalar(
             -N/2 * np.log(2 * np.pi) -
